@@ -464,6 +464,18 @@ def gen_cases(ctx: fw.Ctx):
         seen.add(k)
         return c
 
+    # 0. the witnesses of the Lean counterexample theorems and the inputs of the known findings, replayed
+    witnesses = [mk("list", xs=[-1]), mk("list", xs=[1e16]), mk("binding", k="a", v=1e-07),
+                 mk("binding", k="a", v=2**63), mk("fromdict", d={"k": [1, 2]}),
+                 mk("binding", 2, True, k="k", v=[[1, 2]]), mk("fromdict", d={"a": 1, "k": [[1, 2]]})]
+    for ent in fw.load_known("C13")[0]:
+        inp = ent.get("input", {})
+        if "context" in inp:
+            witnesses.append({"indent": 0, "inline": False, **inp})
+    for c in witnesses:
+        if emit(c):
+            ctx.count("witnesses_replayed")
+            yield c
     # 1. every scalar representative in every context
     scalars = [None, True, False] + INTS + FLOATS
     for v in scalars:
